@@ -190,6 +190,8 @@ pub fn run(f: &[&str]) -> String {
                         'b' => bool::deserialize(&mut de).map(|v| format!("b{}", v)),
                         'i' => IgnoredAny::deserialize(&mut de).map(|_| "i".to_string()),
                         'n' => <()>::deserialize(&mut de).map(|_| "n".to_string()),
+                        #[cfg(feature = "raw_value")]
+                        'w' => <Box<serde_json::value::RawValue>>::deserialize(&mut de).map(|v| format!("w{}", hex(v.get().as_bytes()))),
                         'l' => i64::deserialize(&mut de).map(|v| format!("z{}", v)),
                         'L' => u64::deserialize(&mut de).map(|v| format!("z{}", v)),
                         'I' => i128::deserialize(&mut de).map(|v| format!("z{}", v)),
